@@ -1,6 +1,9 @@
 package main
 
-import "strings"
+import (
+	"fmt"
+	"strings"
+)
 
 // baseName strips the per-path suffix "~n" of an obligation name.
 func baseName(n string) string {
@@ -35,29 +38,32 @@ func judge(fr *FuncResult) (failed []*Obligation) {
 			coverAny[b] = true
 		}
 	}
-	// return sites: a site that is unreachable under the precondition is dead code, not vacuity;
-	// only a function none of whose return sites is reachable is reported
-	anyRet := false
-	nRet := 0
-	for b, ok := range coverAny {
-		_ = ok
-		if strings.HasPrefix(b, "cover:ret") {
-			anyRet = true
-		}
-	}
+	// return sites: every return site must be reachable under the precondition (otherwise its
+	// postconditions hold vacuously), except those the contract declares dead code
+	// ("unreachable ret k"); a declared-dead site that is reachable is reported as well, so the
+	// declaration cannot go stale silently.
 	for b := range coverSeen {
-		if strings.HasPrefix(b, "cover:ret") {
-			nRet++
+		if !strings.HasPrefix(b, "cover:ret") {
+			continue
 		}
-	}
-	if anyRet {
-		for b := range coverSeen {
-			if strings.HasPrefix(b, "cover:ret") {
-				coverAny[b] = true
+		var k int
+		fmt.Sscanf(strings.TrimPrefix(b, "cover:ret"), "%d", &k)
+		if fr.Contract != nil && fr.Contract.DeadRets[k] {
+			coverAny[b] = !coverAny[b]
+			if !coverAny[b] {
+				// reachable although declared unreachable: make sure it is a definite answer
+				definite := false
+				for _, ob := range coverSeen[b] {
+					if ob.Result != nil && ob.Result.Status == "sat" {
+						definite = true
+					}
+				}
+				if !definite {
+					coverAny[b] = true // unknown: cannot tell; keep quiet
+				}
 			}
 		}
 	}
-	_ = nRet
 	for _, ob := range fr.Obs {
 		if ob.Cover {
 			ob.OK = coverAny[baseName(ob.Name)]
